@@ -1,7 +1,7 @@
-(** Specification vocabulary for typehelper.ToSlice (extra check X03): typing of value trees and what it
+(** Specification vocabulary for typehelper.ToSlice/values (extra check X03): typing of value trees and what it
     means for a list of interface values to be "the elements of the slice". *)
 From Coq Require Import ZArith List Bool.
-From Low Require Import Model.TypeHelper.
+From Low Require Import Model.ToSliceValues.
 Import ListNotations.
 Open Scope Z_scope.
 
